@@ -688,11 +688,25 @@ def sample_points(symbols, hyps, n, seed=0, witness=None, tries=4000, ranges=Non
     plan = _bounds_plan(set(symbols), hyps)
     fast = [_fast_cond(h, symbols) for h in hyps]
     k = 0; t_end = time.time() + (30 if tries <= 4000 else 90)
+    # unusual magnitudes written in the hypotheses (tolerances, cut-offs such as 1e-4 or 1e6): some samples are placed around them
+    consts = set()
+    for h_ in hyps:
+        if isinstance(h_, sp.Basic):
+            for a_ in h_.atoms(sp.Number):
+                try:
+                    av = abs(float(a_))
+                    if av != 0 and (av < 1e-2 or av > 1e2) and av < 1e30 and av > 1e-30: consts.add(sp.nsimplify(abs(a_), rational=True))
+                except Exception: pass
+    consts = sorted(consts)[:8]
     while len(pts) < n and k < tries and time.time() < t_end:
         k += 1
         pt = {}
         for s in symbols:
             if s in plan and k % 4: continue
+            if consts and k % 3 == 1 and not s.is_integer and not (ranges and s in ranges) and rnd.random() < 0.4:
+                c_ = consts[rnd.randrange(len(consts))] * rnd.choice([sp.Rational(3, 10), sp.Rational(9, 10), sp.Rational(11, 10), 3])
+                pt[s] = -c_ if s.is_negative else c_
+                continue
             if ranges and s in ranges:
                 lo, hi = ranges[s]; v = sp.Rational(rnd.randint(int(lo * 1000), int(hi * 1000)), 1000)
             elif s.is_integer:
@@ -711,6 +725,8 @@ def sample_points(symbols, hyps, n, seed=0, witness=None, tries=4000, ranges=Non
                 bq = sp.Rational(int(sp.floor(bv * 1000)), 1000)
                 slack = sp.Rational(rnd.randint(1, 3000), 1000)
                 v = bq + slack + sp.Rational(1, 1000) if op in ('>', '>=') else bq - slack
+                if op in ('<', '<=') and (s.is_positive or s.is_nonnegative) and bv > 0 and (v <= 0 or k % 2):
+                    v = sp.nsimplify(bv * sp.Rational(rnd.randint(50, 950), 1000), rational=True)      # positive symbol under a small positive bound: multiplicative placement
                 if s.is_positive and v <= 0: ok = False; break
                 if s.is_negative and v >= 0: ok = False; break
                 if s.is_nonnegative and v < 0: ok = False; break
